@@ -1,12 +1,11 @@
 import OjgVerif.JPText.Spec
 /-! # C14 lemmas: `readStr` reads back what `AppendString` writes
 
-`readStr_appendString`: for EVERY byte string `s`, the parser's quoted-string reader applied to
-`AppendString(s, '\'')` followed by anything returns `sanitize s` — `s` with every byte that is not
-part of a valid UTF-8 sequence replaced by U+FFFD — and the rest of the input; `sanitize_valid`:
-`sanitize s = s` for valid UTF-8. The proof reads the generated `jMap` and `hex` tables
-(`byteOK_all`, 256 cells by kernel evaluation): an escape letter without a matching case in
-`readEscStr`, a class change of a quote or of the backslash, a wrong hex digit break it. -/
+`readStr_appendString`: for EVERY byte string `s` (valid UTF-8 or not, since c107b3b), the parser's
+quoted-string reader applied to `AppendString(s, '\'')` followed by anything returns `s` and the rest of
+the input. The proof reads the generated `jMap` and `hex` tables (`byteOK_all`, `hexOK_all`: 256 cells by
+kernel evaluation): an escape letter without a matching case in `readEscStr`, a class change of a quote
+or of the backslash, a wrong hex digit break it. -/
 namespace OjgVerif.JPText
 open OjgVerif
 
@@ -207,16 +206,27 @@ theorem decodeRune_tail (b : UInt8) (r : Bytes) :
       · simp
   · simp
 
-/-- `s` with every byte outside a valid UTF-8 sequence replaced by U+FFFD (fuel ≥ length) -/
-def sanitize : Nat → Bytes → Bytes
+/-- `s` cut into the pieces `AppendString` handles one by one (it is `s`: `rebuild_id`) -/
+def rebuild : Nat → Bytes → Bytes
   | 0, _ => []
   | _, [] => []
   | f+1, b :: r =>
     if jCls b = 56 then
-      if (decodeRune (b :: r)).1 = runeError then
-        0xEF :: 0xBF :: 0xBD :: sanitize f (r.drop ((decodeRune (b :: r)).2 - 1))
-      else b :: (r.take ((decodeRune (b :: r)).2 - 1) ++ sanitize f (r.drop ((decodeRune (b :: r)).2 - 1)))
-    else b :: sanitize f r
+      b :: (r.take ((decodeRune (b :: r)).2 - 1) ++ rebuild f (r.drop ((decodeRune (b :: r)).2 - 1)))
+    else b :: rebuild f r
+
+def hexOK (b : UInt8) : Bool :=
+  hexVal (hexDigit (b >>> 4 &&& 15)) == some (b >>> 4 &&& 15) && hexVal (hexDigit (b &&& 15)) == some (b &&& 15) &&
+    ((b >>> 4 &&& 15) <<< 4 ||| (b &&& 15)) == b
+
+theorem hexOK_all (b : UInt8) : hexOK b = true := forall_byte (p := hexOK) (by decide +kernel) b
+
+theorem byte_hex (b : UInt8) :
+    hexVal (hexDigit (b >>> 4 &&& 15)) = some (b >>> 4 &&& 15) ∧ hexVal (hexDigit (b &&& 15)) = some (b &&& 15) ∧
+      ((b >>> 4 &&& 15) <<< 4 ||| (b &&& 15)) = b := by
+  have := hexOK_all b
+  simp only [hexOK, Bool.and_eq_true, beq_iff_eq] at this
+  exact ⟨this.1.1, this.1.2, this.2⟩
 
 theorem appFst_nil {β : Type} (x : Option (List UInt8 × β)) : appFst [] x = x := by
   cases x <;> simp [appFst]
@@ -331,6 +341,15 @@ theorem decodeRune_width_one (b : UInt8) (r : Bytes) (h : (decodeRune (b :: r)).
       · simp [hc]
   · simp [c1, c2, c3, c4, c5]
 
+theorem decodeRune_pos (b : UInt8) (r : Bytes) : 1 ≤ (decodeRune (b :: r)).2 := by
+  rcases Nat.lt_or_ge (decodeRune (b :: r)).2 1 with h | h
+  · exfalso
+    have h0 : (decodeRune (b :: r)).2 = 0 := by omega
+    rw [decodeRune_cons] at h0
+    repeat' split at h0
+    all_goals simp at h0
+  · exact h
+
 theorem enc2028 : encodeRune (UInt8.toNat 2 * 4096 + UInt8.toNat 0 * 256 + UInt8.toNat 2 * 16 + UInt8.toNat 8) =
     [UInt8.ofNat 226, UInt8.ofNat 128, UInt8.ofNat 168] := by decide +kernel
 theorem enc2029 : encodeRune (UInt8.toNat 2 * 4096 + UInt8.toNat 0 * 256 + UInt8.toNat 2 * 16 + UInt8.toNat 9) =
@@ -341,7 +360,7 @@ theorem encFFFD : encodeRune (UInt8.toNat 15 * 4096 + UInt8.toNat 15 * 256 + UIn
 /-- `readEscStr` reads back the body `AppendString` writes, whatever follows the closing quote -/
 theorem readEsc_body (f : Nat) : ∀ (s rest : Bytes) (F : Nat), s.length ≤ f →
     (appendStrBody 39 f s).length + 1 ≤ F →
-    readEsc 39 F (appendStrBody 39 f s ++ 39 :: rest) = some (sanitize f s, rest) := by
+    readEsc 39 F (appendStrBody 39 f s ++ 39 :: rest) = some (rebuild f s, rest) := by
   induction f with
   | zero =>
     intro s rest F hs hF
@@ -349,7 +368,7 @@ theorem readEsc_body (f : Nat) : ∀ (s rest : Bytes) (F : Nat), s.length ≤ f 
     | nil =>
       cases F with
       | zero => simp [appendStrBody] at hF
-      | succ F => simp [appendStrBody, readEsc, sanitize]
+      | succ F => simp [appendStrBody, readEsc, rebuild]
     | cons b r => simp at hs
   | succ f ih =>
     intro s rest F hs hF
@@ -357,7 +376,7 @@ theorem readEsc_body (f : Nat) : ∀ (s rest : Bytes) (F : Nat), s.length ≤ f 
     | nil =>
       cases F with
       | zero => simp [appendStrBody] at hF
-      | succ F => simp [appendStrBody, readEsc, sanitize]
+      | succ F => simp [appendStrBody, readEsc, rebuild]
     | cons b r =>
       have hr : r.length ≤ f := by simp at hs; omega
       by_cases ho : jCls b = 111
@@ -371,7 +390,7 @@ theorem readEsc_body (f : Nat) : ∀ (s rest : Bytes) (F : Nat), s.length ≤ f 
           simp only [List.cons_append, readEsc, hb.1, hb.2, ↓reduceIte]
           rw [ih r rest F hr (by simp at hF; omega), consFst_some]
           have : jCls b ≠ 56 := by rw [ho]; decide
-          simp [sanitize, this]
+          simp [rebuild, this]
       by_cases hd : jCls b = 46
       · have hb := byte_dot hd
         have e : appendStrBody 39 (f + 1) (b :: r) =
@@ -387,7 +406,7 @@ theorem readEsc_body (f : Nat) : ∀ (s rest : Bytes) (F : Nat), s.length ≤ f 
           simp only [show ((117 : UInt8) = 120) = False by decide, ↓reduceIte, Bool.true_or, decide_true]
           rw [hb.2.2, ih r rest F hr (by simp at hF; omega), appFst_some]
           have : jCls b ≠ 56 := by rw [hd]; decide
-          simp [sanitize, this]
+          simp [rebuild, this]
       by_cases h8 : jCls b = 56
       · have hge := byte_8 h8
         have htail := decodeRune_tail b r
@@ -413,11 +432,10 @@ theorem readEsc_body (f : Nat) : ∀ (s rest : Bytes) (F : Nat), s.length ≤ f 
               show hexVal 48 = some 0 by decide, show hexVal 56 = some 8 by decide,
               show ((117 : UInt8) = 120) = False by decide, Bool.true_or, decide_true]
             rw [ih _ rest F hdl (by simp at hF; omega), appFst_some]
-            have ne : (decodeRune (b :: r)).1 ≠ runeError := by rw [r1]; simp [runeError]
-            simp only [sanitize, h8, ne, ↓reduceIte]
+            simp only [rebuild, h8, ↓reduceIte]
             rw [h3.1] at *
-            have : b :: (List.take (3 - 1) r ++ sanitize f (List.drop (3 - 1) r)) =
-                (b :: List.take 2 r) ++ sanitize f (List.drop 2 r) := by simp
+            have : b :: (List.take (3 - 1) r ++ rebuild f (List.drop (3 - 1) r)) =
+                (b :: List.take 2 r) ++ rebuild f (List.drop 2 r) := by simp
             rw [this, h3.2, enc2028]
         by_cases r2 : (decodeRune (b :: r)).1 = 0x2029
         · have e : appendStrBody 39 (f + 1) (b :: r) =
@@ -439,28 +457,47 @@ theorem readEsc_body (f : Nat) : ∀ (s rest : Bytes) (F : Nat), s.length ≤ f 
               show hexVal 48 = some 0 by decide, show hexVal 57 = some 9 by decide,
               show ((117 : UInt8) = 120) = False by decide, Bool.true_or, decide_true]
             rw [ih _ rest F hdl (by simp at hF; omega), appFst_some]
-            have ne : (decodeRune (b :: r)).1 ≠ runeError := by rw [r2]; simp [runeError]
-            simp only [sanitize, h8, ne, ↓reduceIte]
+            simp only [rebuild, h8, ↓reduceIte]
             rw [h3.1] at *
-            have : b :: (List.take (3 - 1) r ++ sanitize f (List.drop (3 - 1) r)) =
-                (b :: List.take 2 r) ++ sanitize f (List.drop 2 r) := by simp
+            have : b :: (List.take (3 - 1) r ++ rebuild f (List.drop (3 - 1) r)) =
+                (b :: List.take 2 r) ++ rebuild f (List.drop 2 r) := by simp
             rw [this, h3.2, enc2029]
         by_cases r3 : (decodeRune (b :: r)).1 = runeError
-        · have r3' : (decodeRune (b :: r)).1 = 65533 := r3
-          have e : appendStrBody 39 (f + 1) (b :: r) =
-              92 :: 117 :: 102 :: 102 :: 102 :: 100 :: appendStrBody 39 f (r.drop ((decodeRune (b :: r)).2 - 1)) := by
-            simp [appendStrBody, h8, r3, runeError]
-          rw [e] at hF ⊢
-          cases F with
-          | zero => simp at hF
-          | succ F =>
-            simp only [List.cons_append, readEsc, ↓reduceIte, hu, show hexVal 102 = some 15 by decide,
-              show hexVal 100 = some 13 by decide,
-              show ((117 : UInt8) = 120) = False by decide, Bool.true_or, decide_true]
-            rw [ih _ rest F hdl (by simp at hF; omega), appFst_some]
-            simp only [sanitize, h8, r3, ↓reduceIte]
-            rw [encFFFD]
-            rfl
+        · by_cases hw1 : (decodeRune (b :: r)).2 = 1
+          · -- not UTF-8: \xHH
+            have hx := byte_hex b
+            have e : appendStrBody 39 (f + 1) (b :: r) =
+                92 :: 120 :: hexDigit (b >>> 4 &&& 15) :: hexDigit (b &&& 15) :: appendStrBody 39 f r := by
+              simp [appendStrBody, h8, r3, hw1, runeError]
+            rw [e] at hF ⊢
+            cases F with
+            | zero => simp at hF
+            | succ F =>
+              simp only [List.cons_append, readEsc, ↓reduceIte, show unescLetter 120 = none by decide, hx.1, hx.2.1]
+              rw [hx.2.2, ih r rest F hr (by simp at hF; omega), consFst_some]
+              simp [rebuild, h8, hw1]
+          · have hw : 2 ≤ (decodeRune (b :: r)).2 := by
+              have := decodeRune_pos b r
+              omega
+            have h3 := decodeRune_three b r 0xFFFD 0xEF 0xBF 0xBD (by omega) (by omega) (by omega) (by omega)
+              (by omega) (by omega) r3 hw
+            have e : appendStrBody 39 (f + 1) (b :: r) =
+                92 :: 117 :: 102 :: 102 :: 102 :: 100 :: appendStrBody 39 f (r.drop ((decodeRune (b :: r)).2 - 1)) := by
+              simp [appendStrBody, h8, r3, hw1, runeError]
+            rw [e] at hF ⊢
+            cases F with
+            | zero => simp at hF
+            | succ F =>
+              simp only [List.cons_append, readEsc, ↓reduceIte, hu, show hexVal 102 = some 15 by decide,
+                show hexVal 100 = some 13 by decide,
+                show ((117 : UInt8) = 120) = False by decide, Bool.true_or, decide_true]
+              rw [ih _ rest F hdl (by simp at hF; omega), appFst_some]
+              simp only [rebuild, h8, ↓reduceIte]
+              rw [h3.1] at *
+              have : b :: (List.take (3 - 1) r ++ rebuild f (List.drop (3 - 1) r)) =
+                  (b :: List.take 2 r) ++ rebuild f (List.drop 2 r) := by simp
+              rw [this, h3.2, encFFFD]
+              rfl
         · -- any other rune: its bytes are copied
           have e : appendStrBody 39 (f + 1) (b :: r) =
               (b :: r.take ((decodeRune (b :: r)).2 - 1)) ++ appendStrBody 39 f (r.drop ((decodeRune (b :: r)).2 - 1)) := by
@@ -477,7 +514,7 @@ theorem readEsc_body (f : Nat) : ∀ (s rest : Bytes) (F : Nat), s.length ≤ f 
               (b :: r.take ((decodeRune (b :: r)).2 - 1)).length := by omega
           rw [List.append_assoc, hFe, readEsc_plain _ _ _ hp,
             ih _ rest _ hdl (by simp only [List.length_append] at hF; omega), appFst_some]
-          simp [sanitize, h8, r3]
+          simp [rebuild, h8]
       · -- an escape letter
         have hb := byte_letter ho hd h8
         have e : appendStrBody 39 (f + 1) (b :: r) = 92 :: jCls b :: appendStrBody 39 f r := by
@@ -488,7 +525,7 @@ theorem readEsc_body (f : Nat) : ∀ (s rest : Bytes) (F : Nat), s.length ≤ f 
         | succ F =>
           simp only [List.cons_append, readEsc, ↓reduceIte, hb]
           rw [ih r rest F hr (by simp at hF; omega), consFst_some]
-          simp [sanitize, h8]
+          simp [rebuild, h8]
 
 theorem readStr_of_head_backslash (L tail : Bytes) (h : L.head? = some 92) :
     readStr 39 (L ++ tail) = readEsc 39 ((L ++ tail).length + 1) (L ++ tail) := by
@@ -501,22 +538,22 @@ theorem readStr_of_head_backslash (L tail : Bytes) (h : L.head? = some 92) :
 
 /-- `readStr` (which changes to `readEscStr` at the first backslash) reads back the body -/
 theorem readStr_body (f : Nat) : ∀ (s rest : Bytes), s.length ≤ f →
-    readStr 39 (appendStrBody 39 f s ++ 39 :: rest) = some (sanitize f s, rest) := by
+    readStr 39 (appendStrBody 39 f s ++ 39 :: rest) = some (rebuild f s, rest) := by
   induction f with
   | zero =>
     intro s rest hs
     cases s with
-    | nil => simp [appendStrBody, readStr, sanitize]
+    | nil => simp [appendStrBody, readStr, rebuild]
     | cons b r => simp at hs
   | succ f ih =>
     intro s rest hs
     cases s with
-    | nil => simp [appendStrBody, readStr, sanitize]
+    | nil => simp [appendStrBody, readStr, rebuild]
     | cons b r =>
       have hr : r.length ≤ f := by simp at hs; omega
       -- escape at the head: the whole rest is read by readEscStr
       have viaEsc : (appendStrBody 39 (f + 1) (b :: r)).head? = some 92 →
-          readStr 39 (appendStrBody 39 (f + 1) (b :: r) ++ 39 :: rest) = some (sanitize (f + 1) (b :: r), rest) := by
+          readStr 39 (appendStrBody 39 (f + 1) (b :: r) ++ 39 :: rest) = some (rebuild (f + 1) (b :: r), rest) := by
         intro hh
         rw [readStr_of_head_backslash _ _ hh]
         exact readEsc_body (f + 1) (b :: r) rest _ hs (by simp only [List.length_append]; omega)
@@ -526,7 +563,7 @@ theorem readStr_body (f : Nat) : ∀ (s rest : Bytes), s.length ≤ f →
         rw [e, List.append_assoc, readStr_plain [b] _ (by intro c hc; simp at hc; subst hc; exact hb) (by simp),
           ih r rest hr, appFst_some]
         have : jCls b ≠ 56 := by rw [ho]; decide
-        simp [sanitize, this]
+        simp [rebuild, this]
       by_cases hd : jCls b = 46
       · exact viaEsc (by simp [appendStrBody, hd])
       by_cases h8 : jCls b = 56
@@ -538,7 +575,7 @@ theorem readStr_body (f : Nat) : ∀ (s rest : Bytes), s.length ≤ f →
         by_cases r2 : (decodeRune (b :: r)).1 = 0x2029
         · exact viaEsc (by simp [appendStrBody, h8, r2])
         by_cases r3 : (decodeRune (b :: r)).1 = runeError
-        · exact viaEsc (by simp [appendStrBody, h8, r3, runeError])
+        · exact viaEsc (by by_cases hw1 : (decodeRune (b :: r)).2 = 1 <;> simp [appendStrBody, h8, r3, hw1, runeError])
         · have e : appendStrBody 39 (f + 1) (b :: r) =
               (b :: r.take ((decodeRune (b :: r)).2 - 1)) ++ appendStrBody 39 f (r.drop ((decodeRune (b :: r)).2 - 1)) := by
             simp [appendStrBody, h8, r1, r2, r3]
@@ -548,67 +585,31 @@ theorem readStr_body (f : Nat) : ∀ (s rest : Bytes), s.length ≤ f →
             · subst h; exact ge80_plain hge
             · exact ge80_plain (htail.2 c h)
           rw [e, List.append_assoc, readStr_plain _ _ hp (by simp), ih _ rest hdl, appFst_some]
-          simp [sanitize, h8, r3]
+          simp [rebuild, h8]
       · exact viaEsc (by simp [appendStrBody, ho, hd, h8])
 
-/-- **Quoted strings round-trip.** For every byte string `s` (a key, a string constant) and whatever
-follows: the parser, having consumed the opening `'`, reads `AppendString(s, '\'')` back as
-`sanitize s` and stops right after the closing quote. -/
-theorem readStr_appendString (s rest : Bytes) :
-    ∃ t, appendString s 39 ++ rest = 39 :: t ∧ readStr 39 t = some (sanitize s.length s, rest) := by
-  refine ⟨appendStrBody 39 s.length s ++ 39 :: rest, ?_, readStr_body s.length s rest (Nat.le_refl _)⟩
-  simp [appendString]
-
-def asciiOK (b : UInt8) : Bool := jCls b == 56 || decide (b < 0x80)
-theorem asciiOK_all (b : UInt8) : asciiOK b = true := forall_byte (p := asciiOK) (by decide +kernel) b
-
-theorem byte_not8 {b : UInt8} (h : jCls b ≠ 56) : b < 0x80 := by
-  have := asciiOK_all b
-  simp only [asciiOK, Bool.or_eq_true, beq_iff_eq, h, false_or, decide_eq_true_eq] at this
-  exact this
-
-/-- on valid UTF-8 nothing is replaced -/
-theorem sanitize_valid (f : Nat) : ∀ s : Bytes, s.length ≤ f → validUtf8 f s = true → sanitize f s = s := by
+theorem rebuild_id (f : Nat) : ∀ s : Bytes, s.length ≤ f → rebuild f s = s := by
   induction f with
-  | zero => intro s hs _; cases s with
+  | zero => intro s hs; cases s with
     | nil => rfl
     | cons b r => simp at hs
   | succ f ih =>
-    intro s hs hv
+    intro s hs
     cases s with
     | nil => rfl
     | cons b r =>
       have hr : r.length ≤ f := by simp at hs; omega
-      have hdl : (r.drop ((decodeRune (b :: r)).2 - 1)).length ≤ f := drop_length_le r _ f hr
-      simp only [validUtf8] at hv
-      split at hv
-      · cases hv
-      rename_i hne
-      have ihd := ih _ hdl hv
-      by_cases h8 : jCls b = 56
-      · by_cases r3 : (decodeRune (b :: r)).1 = runeError
-        · have hw : 2 ≤ (decodeRune (b :: r)).2 := by
-            simp only [r3, true_and, Bool.and_eq_true, decide_eq_true_eq] at hne
-            omega
-          have h3 := decodeRune_three b r 0xFFFD 0xEF 0xBF 0xBD (by omega) (by omega) (by omega) (by omega)
-            (by omega) (by omega) r3 hw
-          simp only [sanitize, h8, r3, ↓reduceIte, ihd]
-          rw [h3.1]
-          have e : b :: r = (b :: r.take 2) ++ r.drop 2 := by simp
-          rw [e, h3.2]
-          simp
-        · simp only [sanitize, h8, r3, ↓reduceIte, ihd]
-          simp
-      · have hlt := byte_not8 h8
-        have e : decodeRune (b :: r) = (b.toNat, 1) := by rw [decodeRune_cons]; simp [hlt]
-        rw [e] at ihd
-        simp only [sanitize, h8, ↓reduceIte]
-        simp at ihd
-        rw [ihd]
+      simp only [rebuild]
+      split
+      · rw [ih _ (drop_length_le r _ f hr)]; simp
+      · rw [ih r hr]
 
-/-- a valid UTF-8 key or string constant is read back exactly -/
-theorem readStr_appendString_valid (s rest : Bytes) (h : utf8Ok s = true) :
+/-- **Quoted strings round-trip.** For every byte string `s` (a key, a union member, a string constant)
+and whatever follows: the parser, having consumed the opening `'`, reads `AppendString(s, '\'')` back as
+`s` and stops right after the closing quote. -/
+theorem readStr_appendString (s rest : Bytes) :
     ∃ t, appendString s 39 ++ rest = 39 :: t ∧ readStr 39 t = some (s, rest) := by
-  obtain ⟨t, h1, h2⟩ := readStr_appendString s rest
-  exact ⟨t, h1, by rw [h2, sanitize_valid s.length s (Nat.le_refl _) h]⟩
+  refine ⟨appendStrBody 39 s.length s ++ 39 :: rest, by simp [appendString], ?_⟩
+  rw [readStr_body s.length s rest (Nat.le_refl _), rebuild_id s.length s (Nat.le_refl _)]
+
 end OjgVerif.JPText
